@@ -58,6 +58,8 @@ def run_prop(prop):
             for l in vio:
                 rp = l.split('replay=')[1].split()[0]
                 names_.append(os.path.basename(rp)[:-5] + (' (no-failing-input-found)' if l.rstrip().endswith('no-failing-input-found') else ''))
+            if p.returncode not in (0, 1):
+                open('/tmp/seeded_fault_%s.out' % n, 'w').write(p.stdout)
             out.append((n, 'exit %d, %d VIOLATION lines, %d undecided' % (p.returncode, len(vio), len(und)), (p.returncode, names_)))
             if RECORD and not HARMLESS:
                 m = json.load(open(d + '/meta.json'))
